@@ -86,6 +86,18 @@ func runC12(w *fw.W) {
 		}
 	}
 	setup()
+	// prop-less descendants: the truth of `x.bear` is whatever the B it inherits says about it (children of
+	// ints, strs, arrays, of objects with a user B, of prototypes), never a function of its own (empty) props
+	for _, src := range []string{"1.bear", "0.bear", "'a.bear", `"".bear`, "[1].bear", "[].bear", "1.5.bear", "0.0.bear", "objB1.bear", "objB1.bear.bear", "objB0.bear",
+		"objBint.bear", "objBnil.bear.bear", "{}.bear", "{a: 1}.bear.bear", "1.bear({})", "0.bear({})", "true.bear", "false.bear", "nil.bear", "Int.bear", "Obj.bear", "PIntT.new(0).bear",
+		"PIntF.new(7).bear", "%{1: 2}.bear", "%{}.bear", "(1:3).bear", "{|x| x}.bear", "1.bear.bear({})", "objB1.bear({})", "objB0.bear({z: 1})"} {
+		name := fmt.Sprintf("x%d", len(pool.Vals))
+		o := ip.Run(name+" := "+src, interp.Options{Env: pool.Env, Fuel: -1})
+		if !o.OK() {
+			continue
+		}
+		pool.Vals = append(pool.Vals, &PoolVal{Name: name, Src: src, Family: "obj", Tags: map[string]bool{"desc": true, "propless": true}, Val: o.Val})
+	}
 	wv := map[bool]object.PanObject{} // distinct operands with known truthiness
 	xo := ip.Run(`{tag: "x-operand"}`, interp.Options{})
 	wo := ip.Run(`{tag: "w-operand"}`, interp.Options{})
